@@ -39,22 +39,107 @@ def norm_test(t, pol):
 
 
 def exact_int_guard(v, conds):
-    """Has the value v passed `type(v) is int` on this path (any spelling / polarity)?"""
-    isa_int = not_bool = False
+    """Has the value v passed `type(v) is int` on this path (any spelling / polarity)?  True; False when every test of v on the
+    path is understood and together they let a non-int (a bool) through; None when v is tested in a way that is not understood."""
+    isa_int = not_bool = unknown = False
     for t, pol, _ in conds:
         t, pol = norm_test(t, pol)
+        if not IS.contains(t, v):
+            continue
+        understood = False
         if t[0] == 'cmp' and pol is not None:
             a, b = t[2], t[3]
+            type_of_v = (('call', 'type', (v,), ()), ('attr', v, '__class__'))
             for x, y in ((a, b), (b, a)):
-                if x == ('call', 'type', (v,), ()) and y == ('name', 'int'):
-                    if (t[1] in ('!=', 'is not') and pol is False) or (t[1] in ('==', 'is') and pol is True):
+                if x in type_of_v and y[0] == 'name' and t[1] in ('!=', 'is not', '==', 'is'):
+                    # a comparison of the result's type with a named type: exact when it pins int
+                    if y == ('name', 'int') and ((t[1] in ('!=', 'is not') and pol is False) or (t[1] in ('==', 'is') and pol is True)):
                         return True
-        if t[0] == 'call' and t[1] == 'isinstance' and len(t[2]) == 2 and t[2][0] == v:
-            if t[2][1] == ('name', 'int') and pol is True:
-                isa_int = True
-            if t[2][1] == ('name', 'bool') and pol is False:
-                not_bool = True
-    return isa_int and not_bool
+                    understood = True
+                if x == v and is_const(y):
+                    understood = True          # `result is None`, `result == 0`: says nothing about the type
+            if a in type_of_v and b[0] in ('tuple', 'list', 'set') and b[1] and all(x[0] == 'name' for x in b[1]) and t[1] in ('in', 'not in'):
+                # type(v) in (int,) is the exact test; type(v) in (int, float, ...) positively lets the other types through
+                if b[1] == (('name', 'int'),) and ((t[1] == 'not in' and pol is False) or (t[1] == 'in' and pol is True)):
+                    return True
+                understood = True
+        if t[0] == 'call' and t[1] == 'isinstance' and len(t[2]) == 2 and t[2][0] == v and pol is not None:
+            if t[2][1][0] == 'name' or (t[2][1][0] == 'tuple' and all(x[0] == 'name' for x in t[2][1][1])):
+                understood = True
+            if t[2][1] == ('name', 'int'):
+                isa_int = isa_int or pol is True
+            if t[2][1] == ('name', 'bool'):
+                not_bool = not_bool or pol is False
+        if not understood:
+            unknown = True
+    if isa_int and not_bool:
+        return True
+    return None if unknown else False
+
+
+def result_handed_on(v, p):
+    """Is the evaluated value v an argument of some call on this path (other than the statement that produced it and the return)?"""
+    for ev in p.events:
+        if ev[0] in ('return', 'cond'):
+            continue
+        for x in ev[1:-1]:
+            if isinstance(x, tuple) and x != v and IS.contains(x, v):
+                return True
+    return False
+
+
+def _pins_builtins(pairs):
+    """True / False / None for the (key value, stored value) pairs of a globals dict."""
+    for k, v in pairs:
+        if not is_const(k):
+            return None
+        if k == C('__builtins__'):
+            if v == C(None) or (v[0] == 'dict' and not v[1]):
+                return True
+            return False if (is_const(v) or v[0] == 'dict') else None
+    return False
+
+
+def globals_verdict(facts, g, owner_names):
+    """Does the globals argument of eval() pin `__builtins__` to None / {}?  True / False / None (not understood).  Read through a
+    dict display, dict(...) with keywords, a module-level constant, or a class-level constant of the evaluating class."""
+    if g is None:
+        return False                     # eval(text): the caller's globals, builtins included
+    if g[0] == 'dict':
+        if any(k == ('opaque', '**') for k, _ in g[1]):
+            return None
+        return _pins_builtins(g[1])
+    if g[0] == 'call' and g[1] == 'dict' and not g[2]:
+        if any(k is None for k, _ in g[3]):
+            return None
+        return _pins_builtins([(C(k), v) for k, v in g[3]])
+    folded = None
+    if g[0] == 'name' and isinstance(facts.consts.get(g[1]), dict):
+        folded = facts.consts[g[1]]
+    elif g[0] == 'attr' and g[1][0] == 'name' and g[1][1] in owner_names:
+        from ..astutil import fold, NotConstant
+        cls = owner_names[g[1][1]]
+        seen = set()
+        while cls in facts.classes and cls not in seen and folded is None:
+            seen.add(cls)
+            defs = [st_.value for st_ in facts.classes[cls].node.body if isinstance(st_, ast.Assign)
+                    and any(isinstance(t, ast.Name) and t.id == g[2] for t in st_.targets)]
+            if len(defs) == 1:
+                try:
+                    folded = fold(defs[0], facts.consts)
+                except NotConstant:
+                    return None
+                if not isinstance(folded, dict):
+                    return None
+            elif defs:
+                return None
+            else:
+                cls = next((b for b in facts.classes[cls].bases if b in facts.classes), None)
+    if folded is None:
+        return None
+    if '__builtins__' not in folded:
+        return False
+    return folded['__builtins__'] in (None, {})
 
 
 def check_integer_results(rep, facts, und):
@@ -70,10 +155,19 @@ def check_integer_results(rep, facts, und):
     fields = stored_fields(facts, 'Arithmetic')
     n = 0
     evals = {}
+    env_none = {}          # eval term -> is the env parameter known to be None on every path that evaluates it
+
+    def env_is_none(p):
+        for t, pol, _ in p.conds:
+            t, pol = norm_test(t, pol)
+            if t[0] == 'cmp' and t[2] == env_param and t[3] == C(None) and ((t[1] in ('is', '==') and pol is True) or (t[1] in ('is not', '!=') and pol is False)):
+                return True
+        return False
     for p in paths:
         for ev in p.events:
             for t in IS.find_all(ev[1:-1], lambda t: t[0] == 'call' and t[1] == 'eval'):
                 evals.setdefault(t, ev[-1])
+                env_none[t] = env_none.get(t, True) and env_is_none(p)
         if p.end != 'return':
             continue
         n += 1
@@ -85,8 +179,31 @@ def check_integer_results(rep, facts, und):
         if is_const(v) and type(v[1]) is int:
             rep.ok('R11.1.integer', 'constant integer result', nontrivial=False)
             continue
-        if exact_int_guard(v, p.conds):
+        inner_evals = IS.find_all(v, lambda t: t[0] == 'call' and t[1] == 'eval')
+        bare_v = v
+        while bare_v[0] == 'res':
+            bare_v = bare_v[3]
+        if inner_evals and not (bare_v[0] == 'call' and bare_v[1] == 'eval'):
+            inner_guard = exact_int_guard(inner_evals[0], p.conds) if len(inner_evals) == 1 else None
+            if inner_guard is True and bare_v == ('call', 'int', (inner_evals[0],), ()):
+                rep.ok('R11.1.integer', 'evaluated result is returned only after the exact-int test (int() of an int)')
+                continue
+            if inner_guard is True:
+                und.append('Arithmetic.eval: the checked result is transformed before it is returned: {}'.format(show(bare_v)[:60]))
+                continue
+            # something is done to the value between eval() and the return (int(..), round(..), a mask): whatever the test says
+            # about the transformed value, the expression's own value was never required to be an integer
+            rep.fail(Finding('R11.1.integer', 'Arithmetic.eval', val[2],
+                             'the value of the expression is transformed before it is returned ({}): a non-integer result (7/2, 2047.9) is turned into an integer '
+                             'instead of being refused'.format(show(bare_v)[:60]), line=val[2].lineno),
+                     instance='the returned value is the value eval() produced')
+            continue
+        guard = exact_int_guard(v, p.conds)
+        if guard is True:
             rep.ok('R11.1.integer', 'evaluated result is returned only after the exact-int test')
+        elif v[0] == 'call' and v[1] == 'eval' and (guard is None or result_handed_on(v, p)):
+            # the result is tested / handed on in a way that is not read as the exact-int test: no verdict, not a finding
+            und.append('Arithmetic.eval: the result of eval() is inspected before it is returned, but not by a test that is understood as `type(result) is int`')
         elif v[0] == 'call' and v[1] == 'eval':
             rep.fail(Finding('R11.1.integer', 'Arithmetic.eval', val[2],
                              'a result of eval() is returned without having passed `type(result) != int -> error`: bool / float / str results become immediates',
@@ -94,21 +211,127 @@ def check_integer_results(rep, facts, und):
         else:
             und.append('Arithmetic.eval returns a value whose type is not understood: {}'.format(show(v)[:80]))
     rep.analysed['Arithmetic.eval return paths'] = n
+    owner_names = {params[0]: 'Arithmetic', 'Arithmetic': 'Arithmetic'}
     for t, node in evals.items():
         args, kw = t[2], dict(t[3])
         src = args[0] if args else kw.get('source')
         g = args[1] if len(args) > 1 else kw.get('globals')
         loc = args[2] if len(args) > 2 else kw.get('locals')
-        src_ok = src is not None and src[0] == 'attr' and src[1] == ('name', params[0]) and src[2] in fields
-        g_ok = False
-        if g is not None and g[0] == 'dict':
-            g_ok = any(k == C('__builtins__') and (v == C(None) or (v[0] == 'dict' and not v[1])) for k, v in g[1])
-        elif g is not None and g[0] == 'name' and isinstance(facts.consts.get(g[1]), dict):
-            d = facts.consts[g[1]]
-            g_ok = '__builtins__' in d and d['__builtins__'] in (None, {})
-        rep.check(src_ok and g_ok and loc == env_param, 'R11.1.sandbox', 'eval(<stored expression text>, {__builtins__: None}, <the env argument>)',
+        if src is not None and src[0] == 'call' and src[1] == 'compile' and src[2] and (len(src[2]) < 3 or src[2][2] == C('eval')) \
+                and dict(src[3]).get('mode', C('eval')) == C('eval'):
+            src = src[2][0]                 # eval(compile(text, name, 'eval'), ...) evaluates text
+        # the text: the field the constructor argument is stored in (True), something understood to be different (False), else None
+        if src is not None and src[0] == 'attr' and src[1] == ('name', params[0]):
+            src_v = src[2] in fields
+        elif src is None or is_const(src) or (src[0] == 'name' and src[1] in params):
+            src_v = False
+        else:
+            src_v = None
+        g_v = globals_verdict(facts, g, owner_names)
+        if loc == env_param:
+            loc_v = True
+        elif loc is not None and loc[0] == 'dict' and not loc[1] and env_none.get(t):
+            loc_v = True                    # `env if env is not None else {}`: no environment was given, an empty one stands in
+        elif loc is None or is_const(loc) or loc[0] in ('dict', 'name', 'attr'):
+            loc_v = False                   # no namespace, a fresh / constant one, another parameter or a field
+        else:
+            loc_v = None
+        verdicts = (src_v, g_v, loc_v)
+        if None in verdicts and False not in verdicts:
+            und.append('Arithmetic.eval: `{}` is not understood ({})'.format(show(t)[:70], ', '.join(
+                n for n, v_ in zip(('expression text', 'globals', 'namespace'), verdicts) if v_ is None)))
+            continue
+        rep.check(False not in verdicts, 'R11.1.sandbox', 'eval(<stored expression text>, {__builtins__: None}, <the env argument>)',
                   lambda node=node: Finding('R11.1.sandbox', 'Arithmetic.eval', node, 'the expression is not evaluated with builtins pinned off and the given environment as namespace', line=node.lineno))
     rep.analysed['sandboxed evaluations'] = len(evals)
+
+
+def expr_eval_params(facts):
+    """Names of the (position, env, line) parameters of the eval() methods of the Expr classes when they all agree, else None."""
+    sigs = set()
+    for cname, ci in facts.classes.items():
+        m = ci.methods.get('eval')
+        if m is not None and facts.is_subclass(cname, 'Expr'):
+            sigs.add(tuple(a.arg for a in m.args.args[1:]))
+    return list(sigs.pop()) if len(sigs) == 1 and len(next(iter(sigs))) == EXPR_EVAL_PARAMS else None
+
+
+def eval_argument(facts, mc, index):
+    """The value an `<expr>.eval(...)` call passes for parameter `index` of (position, env, line), positionally or by keyword;
+    None when it passes none, ('unknown',) when the call is not read (star arguments, ** splat)."""
+    args, kw = mc[3], dict(mc[4])
+    if any(a[0] == 'star' for a in args) or None in kw:
+        return ('unknown',)
+    if len(args) > index:
+        return args[index]
+    names = expr_eval_params(facts)
+    if kw and names is None:
+        return ('unknown',)
+    return kw.get(names[index]) if names else None
+
+
+def table_stores(facts, p, tbl):
+    """([(key, value, node)], opaque): what the path stores into the table `tbl`: `tbl[k] = v`, `tbl.__setitem__(k, v)`,
+    `tbl.update({k: v})` / `tbl.update(k=v)`; opaque is True when the table is changed or handed on in another way."""
+    from ..pathwalk import MUTATORS
+    out, opaque = [], False
+    for e in p.events:
+        if e[0] == 'setitem' and e[1] == tbl:
+            out.append((e[2], e[3], e[4]))
+        elif e[0] == 'mcall' and e[1] == tbl and e[2] in MUTATORS:
+            args, kw = e[3], dict(e[4])
+            if e[2] == '__setitem__' and len(args) == 2 and not kw:
+                out.append((args[0], args[1], e[5]))
+            elif e[2] == 'update' and len(args) == 1 and not kw and args[0][0] == 'dict' and all(k != ('opaque', '**') for k, _ in args[0][1]):
+                out.extend((k, v, e[5]) for k, v in args[0][1])
+            elif e[2] == 'update' and not args and kw and None not in kw:
+                out.extend((C(k), v, e[5]) for k, v in kw.items())
+            else:
+                opaque = True
+        elif e[0] in ('expr', 'mcall') and IS.find_all(e[1:-1], lambda x: (
+                (x[0] == 'call' and x[1] in facts.funcs) or x[0] in ('callv', 'new')) and any(a == tbl for a in x[2])):
+            opaque = True                 # the table itself is handed to a repository function that is not followed
+    return out, opaque
+
+
+def judge_constant_store(facts, p, sets, opaque, tbl, item, fields):
+    """(verdict, why, key field, environment) for one constant-definition path: True / False / None (not understood)."""
+    if opaque:
+        return None, 'the constants table is changed through a call that is not followed', None, None
+    if not sets:
+        return False, 'nothing is stored into the table', None, None
+    if len(sets) != 1:
+        return None, 'several stores into the constants table on one path', None, None
+    key, stored, node = sets[0]
+    while stored[0] == 'res':
+        stored = stored[3]
+    if not (stored[0] == 'mcall' and stored[2] == 'eval'):
+        # the evaluation sits in a helper: follow the stored value through effect-free module-level functions
+        from ..layout import Sizes
+        resolved = Sizes(facts).resolve(stored, p)
+        if resolved[0] == 'mcall' and resolved[2] == 'eval':
+            stored = resolved
+        elif is_const(stored) or (stored[0] == 'attr' and stored[1] == item):
+            return False, 'the value stored is {}, not the evaluated expression'.format(show(stored)[:40]), None, None
+        else:
+            return None, 'the value stored for a constant ({}) is not followed back to an evaluation of its expression'.format(show(stored)[:80]), None, None
+    if not (key[0] == 'attr' and key[1] == item and key[2] in fields):
+        if is_const(key) or (key[0] == 'attr' and key[1] == item):
+            return False, 'stored under {}'.format(show(key)[:40]), None, None
+        return None, 'the key a constant is stored under ({}) is not understood'.format(show(key)[:60]), None, None
+    recv = stored[1]
+    if not (recv[0] == 'attr' and recv[1] == item and recv[2] in fields):
+        return None, 'the expression that is evaluated ({}) is not a field of the constant'.format(show(recv)[:60]), None, None
+    if recv[2] == key[2]:
+        return False, 'the field the constant is stored under is the field that is evaluated', None, None
+    env = eval_argument(facts, stored, 1)
+    if env is None or is_const(env) or env == tbl:
+        return False, 'evaluated in {}'.format('no environment' if env is None else show(env)[:40]), None, None
+    if is_chainmap(env) and not any(a[0] == 'star' for a in env[2]) and not env[3]:
+        if env[2] and env[2][0] == tbl:
+            return True, '', key[2], env
+        return False, 'the environment {} does not look the constants up first'.format(show(env)[:60]), None, None
+    return None, 'the environment a constant is evaluated in ({}) is not understood'.format(show(env)[:60]), None, None
 
 
 def is_chainmap(v):
@@ -140,33 +363,20 @@ def check_constants_pass(rep, facts, pipe, und):
         if p.end == 'raise':
             continue
         n += 1
-        evs = [e for e in p.events if e[0] == 'value' and e[1][0] == 'mcall' and e[1][2] == 'eval']
-        sets = [e for e in p.events if e[0] == 'setitem' and e[1] == tbl]
         fields = stored_fields(facts, 'Constant')
-        if len(sets) == 1 and not evs:
-            # the evaluation sits in a helper: follow the stored value through effect-free module-level functions
-            from ..layout import Sizes
-            stored = sets[0][3]
-            while stored[0] == 'res':
-                stored = stored[3]
-            resolved = Sizes(facts).resolve(stored, p)
-            if resolved[0] == 'mcall' and resolved[2] == 'eval':
-                evs = [('value', resolved, sets[0][4])]
-                sets = [sets[0][:3] + (resolved,) + sets[0][4:]]
-            else:
-                raise AnalysisError('resolve_constants: the value stored for a constant ({}) is not followed back to an evaluation of its expression'.format(show(stored)[:80]))
-        ok = len(evs) == 1 and len(sets) == 1 and sets[0][2][0] == 'attr' and sets[0][2][1] == item and sets[0][3] == evs[0][1] \
-            and evs[0][1][1][0] == 'attr' and evs[0][1][1][1] == item and evs[0][1][1][2] in fields and sets[0][2][2] in fields \
-            and sets[0][2][2] != evs[0][1][1][2]
-        if ok:
-            key_attrs.add(sets[0][2][2])
-        env = evs[0][1][3][1] if evs and len(evs[0][1][3]) > 1 else None
-        env_ok = is_chainmap(env) and env[2] and env[2][0] == tbl
-        if env_ok and len(env[2]) > 1:
-            fallback = env[2][1]
-        rep.check(ok and env_ok, 'R11.2.sequential', 'constants[name] = expr.eval(env over the constants defined so far)',
-                  lambda p=p: Finding('R11.2.sequential', 'resolve_constants', sets[0][4] if sets else loop,
-                                      'a constant is not stored as the value of its own expression evaluated over the constants defined before it', line=loop.lineno))
+        sets, opaque_store = table_stores(facts, p, tbl)
+        where = sets[0][2] if sets else loop
+        verdict, why, key_attr, env = judge_constant_store(facts, p, sets, opaque_store, tbl, item, fields)
+        if verdict is None:
+            und.append('resolve_constants: ' + why)
+            continue
+        if verdict:
+            key_attrs.add(key_attr)
+            if len(env[2]) > 1:
+                fallback = env[2][1]
+        rep.check(verdict, 'R11.2.sequential', 'constants[name] = expr.eval(env over the constants defined so far)',
+                  lambda p=p, where=where, why=why: Finding('R11.2.sequential', 'resolve_constants', where,
+                                                            'a constant is not stored as the value of its own expression evaluated over the constants defined before it ({})'.format(why), line=loop.lineno))
         acc = account(p, result)
         kept = [a for a in acc.appended if a[0] in (('lv', result), ('name', result))]
         rep.check(not kept, 'R11.2.sequential', 'the constant item itself emits nothing',
@@ -197,10 +407,41 @@ def check_constants_pass(rep, facts, pipe, und):
         return t[0] == 'call' and t[1] == 'is_int' and len(t[2]) == 1 and t[2][0] in name_syms and pol is True
     # refusals that depend on the constant's name (a raise reached under a condition that mentions it)
     raise_nodes = {id(p.end_node) for p in raises if any(any(IS.contains(t, s_) for s_ in name_syms) for t, _, _ in p.conds)}
+    # a refusal that depends on the *value* the expression evaluated to: a constant is an integer of any size (64-bit data
+    # directives take them, intermediate values are scaled down again), so refusing some of them changes what programs mean
+    for p in raises:
+        evalv = [e[1] for e in p.events if e[0] == 'value' and e[1][0] == 'mcall' and e[1][2] == 'eval' and e[1][1][0] == 'attr' and e[1][1][1] == item]
+        if not evalv:
+            continue
+        for t, pol, nd in p.conds:
+            if any(IS.contains(t, ev_) for ev_ in evalv) and t[0] in ('cmp', 'bool'):
+                rep.fail(Finding('R11.2.value', 'resolve_constants', nd if nd is not None else loop,
+                                 'a constant definition is refused depending on the value of its expression ({}): a constant is the integer its expression evaluates '
+                                 'to, of any magnitude'.format(show(t)[:80]), line=getattr(nd, 'lineno', loop.lineno)),
+                         instance='no constant is refused because of its value')
+                break
     has_shadow = any(positive(p, shadows) for p in raises)
     has_numeric = any(positive(p, numeric) for p in raises)
     explained = {id(p.end_node) for p in raises if positive(p, shadows) or positive(p, numeric)}
     unexplained = len(raise_nodes - explained)
+    # a call that receives the constant (or its name) before the definition and is not followed may be where names are refused
+    opaque_checks = []
+    for p in const_paths:
+        if p.end == 'raise':
+            continue
+        for e in p.events:
+            if e[0] == 'setitem' and e[1] == tbl:
+                break
+            if e[0] == 'mcall' and e[1] == tbl:
+                break
+            if e[0] == 'mcall' and e[1] == item and e[2] != 'eval':
+                opaque_checks.append(e[:5])
+            if e[0] != 'expr':
+                continue                 # tests (`if is_int(name)`) are read as conditions; a validation call is a statement
+            for x in IS.find_all(e[1:-1], lambda x: (x[0] == 'mcall' and x[1] == item and x[2] != 'eval') or
+                                 (x[0] in ('call', 'callv') and (x[0] == 'callv' or x[1] in facts.funcs) and any(a == item or (a[0] == 'attr' and a[1] == item) for a in x[2]))):
+                opaque_checks.append(x)
+    unexplained = unexplained or len(opaque_checks)
     if not key_attrs:
         und.append('resolve_constants: the field a constant is stored under is not identified')
     elif not has_shadow and unexplained:
@@ -252,7 +493,7 @@ def role_tables(pipe, calls):
     for role, definer in (('constants', 'resolve_constants'), ('labels', 'resolve_labels')):
         for c in pipe.passes(calls):
             if c.named(definer):
-                cands = [a for a in c.args if a[0] not in ('items', 'const', 'func', 'class', 'closure')]
+                cands = [a for a in c.args if a[0] not in ('items', 'const', 'func', 'class', 'closure', 'module')]      # a module-level table handed along is not the per-call one
                 if len(cands) == 1:
                     out[role] = cands[0]
                 break
@@ -293,8 +534,31 @@ def check_envs(rep, facts, pipe, und):
                     continue
                 envs += 1
                 n += 1
+                if None in idx or node.keywords:
+                    und.append('{}: the maps of {} are not all followed back to parameters'.format(name, unparse(node)[:50]))
+                    continue
                 ok = idx == [ci, li]
                 rep.check(ok, 'R11.2.env', '{}: ChainMap(constants, labels)'.format(name),
+                          lambda node=node, name=name: Finding('R11.2.env', name, node,
+                                                               'evaluation environment {} gives names a different precedence than every other site'.format(unparse(node)), line=node.lineno))
+        # {**labels, **constants}: later entries win, so this looks constants up first as well - a snapshot, which equals the live
+        # view only while neither table changes inside the function
+        from ..pathwalk import MUTATORS as _MUT
+        pnames = [a.arg for a in fn.args.args]
+        changed = any((isinstance(x, ast.Subscript) and isinstance(x.ctx, (ast.Store, ast.Del)) and res.param_index(x.value) in (ci, li)) or
+                      (isinstance(x, ast.Call) and isinstance(x.func, ast.Attribute) and x.func.attr in _MUT and res.param_index(x.func.value) in (ci, li))
+                      for x in ast.walk(fn))
+        for node in ast.walk(fn):
+            if isinstance(node, ast.Dict) and node.keys and all(k is None for k in node.keys):
+                idx = [res.param_index(v_) for v_ in node.values]
+                if li not in idx:
+                    continue
+                envs += 1
+                n += 1
+                if None in idx or changed:
+                    und.append('{}: the environment {} is a snapshot of tables that are not all followed / that change in this pass'.format(name, unparse(node)[:50]))
+                    continue
+                rep.check(idx == [li, ci], 'R11.2.env', '{}: {{**labels, **constants}} (constants looked up first)'.format(name),
                           lambda node=node, name=name: Finding('R11.2.env', name, node,
                                                                'evaluation environment {} gives names a different precedence than every other site'.format(unparse(node)), line=node.lineno))
         if not envs:
@@ -304,6 +568,16 @@ def check_envs(rep, facts, pipe, und):
     rep.count('label environments', n)
 
 
+def ends_alias_resolved(facts, fname):
+    """Is every result of the module-level function `resolve_register_aliases(...)` applied to something (a tail call)?"""
+    fn = facts.funcs.get(fname)
+    if fn is None or fname == 'resolve_register_aliases':
+        return False
+    rets = [r for r in walk_no_nested(fn) if isinstance(r, ast.Return)]
+    return bool(rets) and all(isinstance(r.value, ast.Call) and isinstance(r.value.func, ast.Name) and r.value.func.id == 'resolve_register_aliases'
+                              and r.value.args for r in rets)
+
+
 def check_aliases(rep, facts, pipe, und):
     """R11.3: register aliases are substituted before every consumer of register fields, in exactly the register fields,
     by a positional rebuild that preserves every other field."""
@@ -311,13 +585,28 @@ def check_aliases(rep, facts, pipe, und):
     for compress, calls in pipe.all_paths():
         passes = pipe.passes(calls)
         names = [c for c in passes]
-        alias_idx = [i for i, c in enumerate(names) if c.named('resolve_register_aliases')]
+        # a pass whose every result is `resolve_register_aliases(<its items>, ...)` hands alias-resolved items back: the
+        # substitution then happens at its end (after whatever it created)
+        alias_idx = [i + (0.5 if not c.named('resolve_register_aliases') else 0) for i, c in enumerate(names)
+                     if c.named('resolve_register_aliases') or ends_alias_resolved(facts, c.name)]
         creators = [i for i, c in enumerate(names) if c.named('transform_pseudo_instructions')]
         consumers = [i for i, c in enumerate(names) if c.named('transform_compressible') or c.named('resolve_instructions')]
         if not any(c.named('resolve_instructions') for c in names):
             und.append('resolve_instructions is not among the passes of assemble')
+        if not creators:
+            # without the pass that expands pseudo-instructions (it creates items whose register fields may again be constant
+            # names) the ordering rule below would hold vacuously
+            und.append('transform_pseudo_instructions is not among the passes of assemble: which pass creates items with register fields is not identified')
         # the item list is threaded: each pass works on the result of the previous one
-        for a, b in zip(names, names[1:]):
+        def observer(c):
+            """a call statement whose result is dropped and whose function does not change what it is handed (a logging helper)"""
+            if not isinstance(getattr(c.node, '_parent', None), ast.Expr) or c.name not in facts.funcs:
+                return False
+            f_ = facts.funcs[c.name]
+            from ..purity import default_use_class
+            return all(default_use_class(f_, a.arg, facts.tree) == 'ok' for a in f_.args.posonlyargs + f_.args.args + f_.args.kwonlyargs)
+        chain = [c for c in names if not observer(c)]
+        for a, b in zip(chain, chain[1:]):
             if a.result not in b.args:
                 und.append('pass {} does not receive the item list returned by {}'.format(b.name, a.name))
         for c in consumers:
@@ -325,6 +614,11 @@ def check_aliases(rep, facts, pipe, und):
             made = [m for m in creators if m < c]
             ok = bool(prior) and (not made or max(prior) > max(made))
             who = 'resolve_instructions' if names[c].named('resolve_instructions') else names[c].name
+            hidden = [b.name for b in names[:c] if not b.named('resolve_register_aliases') and not ends_alias_resolved(facts, b.name)
+                      and b.name in facts.funcs and any(isinstance(x, ast.Name) and x.id == 'resolve_register_aliases' for x in ast.walk(facts.funcs[b.name]))]
+            if not ok and hidden:
+                und.append('{} uses resolve_register_aliases in a way that is not followed (not simply on its result)'.format(hidden[0]))
+                continue
             rep.check(ok, 'R11.3.order', '{} (step {}, compress={}) sees alias-resolved registers'.format(who, c, compress),
                       lambda who=who: Finding('R11.3.order', 'assemble', 'pipeline', '{} runs on items whose register fields may still be constant names'.format(who), line=fn.lineno))
     ra = facts.funcs.get('resolve_register_aliases')
@@ -467,6 +761,12 @@ def check_aliases(rep, facts, pipe, und):
     item = ('item', loop.target.id) if isinstance(loop.target, ast.Name) else None
     result = returned_list(ra)
     rebuilt = 0
+    unknown_replacement = False
+
+    def unwrap_seq(v):
+        while v[0] == 'call' and v[1] in ('list', 'tuple') and len(v[2]) == 1 and not v[3]:
+            v = v[2][0]
+        return v
     for p in paths:
         acc = account(p, result)
         for recv, val, node, meth in acc.appended:
@@ -474,14 +774,22 @@ def check_aliases(rep, facts, pipe, und):
                 continue
             if val[0] == 'mcall' and val[2] == '__class__':
                 rebuilt += 1
-                ok = val[1] == item and len(val[3]) == 1 and val[3][0][0] == 'star' and not val[4] \
-                    and val[3][0][1][0] == 'mcall' and val[3][0][1][2] == 'values'
-                rep.check(ok, 'R11.3.rebuild', 'rebuilt as item.__class__(*fields.values()) (all other fields preserved, see rebuild invariant)',
-                          lambda node=node: Finding('R11.3.rebuild', 'resolve_register_aliases', node, 'the item is not rebuilt positionally from its own fields', line=node.lineno), nontrivial=False)
-            elif val != item and val[0] in ('new', 'call', 'callv'):
+                star = unwrap_seq(val[3][0][1]) if len(val[3]) == 1 and val[3][0][0] == 'star' else None
+                ok = val[1] == item and star is not None and not val[4] and star[0] == 'mcall' and star[2] == 'values' and not star[3]
+                if ok:
+                    rep.ok('R11.3.rebuild', 'rebuilt as item.__class__(*fields.values()) (all other fields preserved, see rebuild invariant)', nontrivial=False)
+                elif item is not None and val[1] != item and val[1][0] in ('item', 'name', 'attr'):
+                    rep.fail(Finding('R11.3.rebuild', 'resolve_register_aliases', node, 'the replacement is built from the class of {}, not of the item it replaces'.format(show(val[1])[:40]), line=node.lineno),
+                             instance='rebuilt as item.__class__(*fields.values()) (all other fields preserved, see rebuild invariant)')
+                else:
+                    unknown_replacement = True
+                    und.append('resolve_register_aliases rebuilds the item with arguments that are not read as all of its fields in order: {}'.format(show(val)[:70]))
+            elif val != item and val[0] in ('new', 'call', 'callv', 'mcall', 'res', 'obj'):
+                unknown_replacement = True
                 und.append('resolve_register_aliases builds its replacement item in a way that is not understood: {}'.format(show(val)[:60]))
-    rep.check(rebuilt >= 1, 'R11.3.rebuild', 'an alias-resolved item is rebuilt',
-              lambda: Finding('R11.3.rebuild', 'resolve_register_aliases', ra, 'items with aliases are no longer rebuilt with the resolved registers', line=ra.lineno))
+    if rebuilt or not unknown_replacement:
+        rep.check(rebuilt >= 1, 'R11.3.rebuild', 'an alias-resolved item is rebuilt',
+                  lambda: Finding('R11.3.rebuild', 'resolve_register_aliases', ra, 'items with aliases are no longer rebuilt with the resolved registers', line=ra.lineno))
     # how does the pass decide that a field names a constant?  Membership in the table (or `.get(...) is None`); a bare
     # truthiness test of the looked-up value is wrong because 0 (x0, shift amount 0) is a legal constant value
     looked = set()
@@ -496,7 +804,39 @@ def check_aliases(rep, facts, pipe, und):
                 looked.add(par.targets[0].id)
             if isinstance(par, ast.NamedExpr) and isinstance(par.target, ast.Name):
                 looked.add(par.target.id)
+    def in_keyerror_try(n):
+        cur, child = getattr(n, '_parent', None), n
+        while cur is not None and not isinstance(cur, (ast.FunctionDef, ast.Lambda)):
+            if isinstance(cur, ast.Try) and any(child is s_ for s_ in cur.body):
+                for h in cur.handlers:
+                    names = [dotted(e_) for e_ in (h.type.elts if isinstance(h.type, ast.Tuple) else [h.type])] if h.type is not None else ['*']
+                    # the handler leaves the field alone: it only moves on to the next field
+                    if any(x in ('KeyError', 'LookupError', 'Exception', 'BaseException', '*') for x in names) \
+                            and all(isinstance(b_, (ast.Continue, ast.Pass)) for b_ in h.body):
+                        return True
+            cur, child = getattr(cur, '_parent', None), cur
+        return False
+    guarded_lookups = [n for n in walk_regions() if isinstance(n, ast.Subscript) and isinstance(n.ctx, ast.Load) and is_table(n.value) and in_keyerror_try(n)]
     member = [n for n in walk_regions() if isinstance(n, ast.Compare) and len(n.ops) == 1 and isinstance(n.ops[0], (ast.NotIn, ast.In)) and is_table(n.comparators[0])]
+    # any other use of the table (handed to a class / a call that is not followed, a bound method, a view): lookups may hide there
+    other_uses = []
+    for n in walk_regions():
+        if isinstance(n, ast.Name) and isinstance(n.ctx, ast.Load) and is_table(n):
+            par = getattr(n, '_parent', None)
+            if isinstance(par, ast.Subscript) and par.value is n:
+                continue
+            if isinstance(par, ast.Attribute) and par.attr == 'get':
+                continue
+            if isinstance(par, ast.Compare) and any(c is n for c in par.comparators):
+                continue
+            if isinstance(par, ast.Call) and isinstance(par.func, ast.Name) and par.func.id in facts.funcs and id(facts.funcs[par.func.id]) in regions:
+                continue                      # handed to a helper that is part of the analysed region
+            if isinstance(par, ast.keyword) and isinstance(getattr(par, '_parent', None), ast.Call) and isinstance(par._parent.func, ast.Name) \
+                    and par._parent.func.id in facts.funcs and id(facts.funcs[par._parent.func.id]) in regions:
+                continue
+            if isinstance(par, ast.Assign) and par.value is n:
+                continue                      # alias = table: resolved by param_index
+            other_uses.append(n)
     none_tests = [n for n in walk_regions() if isinstance(n, ast.Compare) and len(n.ops) == 1 and isinstance(n.ops[0], (ast.Is, ast.IsNot))
                   and isinstance(n.left, ast.Name) and n.left.id in looked and isinstance(n.comparators[0], ast.Constant) and n.comparators[0].value is None]
     truthy = []
@@ -515,14 +855,27 @@ def check_aliases(rep, facts, pipe, und):
                         truthy.append(n if not isinstance(n, ast.comprehension) else t)
     keyg = [n for n in walk_regions() if isinstance(n, ast.Compare) and len(n.ops) == 1 and isinstance(n.ops[0], (ast.NotIn, ast.In))
             and not is_table(n.comparators[0]) and res.literal(n.comparators[0]) is not None and set(res.literal(n.comparators[0])) == regs]
-    iter_regs = [n for n in walk_regions() if isinstance(n, (ast.For, ast.comprehension)) and res.literal(n.iter) is not None and set(res.literal(n.iter)) == regs]
+    def iter_literal(it):
+        """the literal field set an iteration is restricted to: the iterable itself or one side of an intersection"""
+        if isinstance(it, ast.BinOp) and isinstance(it.op, ast.BitAnd):
+            return iter_literal(it.left) or iter_literal(it.right)
+        if isinstance(it, ast.Call) and isinstance(it.func, ast.Attribute) and it.func.attr == 'intersection' and len(it.args) == 1:
+            return iter_literal(it.func.value) or iter_literal(it.args[0])
+        if isinstance(it, ast.Call) and isinstance(it.func, ast.Name) and it.func.id == 'sorted' and len(it.args) == 1:
+            return iter_literal(it.args[0])
+        v_ = res.literal(it)
+        return set(v_) if v_ else None
+    iter_regs = [n for n in walk_regions() if isinstance(n, (ast.For, ast.comprehension)) and iter_literal(n.iter) == regs]
     for t in truthy:
         rep.fail(Finding('R11.3.lookup', 'resolve_register_aliases', t,
                          'whether a register field names a constant is decided by the truthiness of the looked-up value: a constant equal to 0 (an alias of x0, a zero shift amount) is '
                          'treated as "not a constant" and left unsubstituted', line=t.lineno))
     if not truthy:
-        if lookups and (member or none_tests) and (keyg or iter_regs):
+        if lookups and (member or none_tests or guarded_lookups) and (keyg or iter_regs):
             rep.ok('R11.3.lookup', 'a register field that names a constant is replaced by constants[name], others untouched')
+        elif not lookups and other_uses:
+            und.append('resolve_register_aliases: the constants table is used through `{}` (line {}), which is not followed to a lookup'.format(
+                unparse(getattr(other_uses[0], '_parent', other_uses[0]))[:50], other_uses[0].lineno))
         elif not lookups:
             rep.fail(Finding('R11.3.lookup', 'resolve_register_aliases', ra, 'alias resolution no longer looks register fields up in the constants table', line=ra.lineno),
                      instance='a register field that names a constant is replaced by constants[name], others untouched')
@@ -567,9 +920,13 @@ def check_register_text(rep, facts, regs, und):
                 out.append(x)
         return out
 
-    def textual(node):
+    def textual(node, depth=0):
         if isinstance(node, ast.Call) and isinstance(node.func, ast.Name) and node.func.id in ('str', 'repr', 'format') and node.args:
             return True
+        if isinstance(node, ast.Call) and isinstance(node.func, ast.Name) and len(defs.get(node.func.id, [])) == 1 and depth < 2:
+            # a helper whose every return is such a text
+            rets = [r for r in walk_no_nested(defs[node.func.id][0]) if isinstance(r, ast.Return)]
+            return bool(rets) and all(r.value is not None and textual(r.value, depth + 1) for r in rets)
         if isinstance(node, ast.Call) and isinstance(node.func, ast.Attribute) and node.func.attr == 'format' and isinstance(node.func.value, ast.Constant):
             return True
         if isinstance(node, ast.JoinedStr):
@@ -592,6 +949,19 @@ def check_register_text(rep, facts, regs, und):
                     break
                 arg = b[0]
                 seen += 1
+            # a helper that hands its argument back unchanged is the argument
+            seen = 0
+            while isinstance(arg, ast.Call) and isinstance(arg.func, ast.Name) and len(defs.get(arg.func.id, [])) == 1 and len(arg.args) == 1 \
+                    and not arg.keywords and seen < 3:
+                h = defs[arg.func.id][0]
+                rets = [r for r in walk_no_nested(h) if isinstance(r, ast.Return)]
+                hp = [a.arg for a in h.args.posonlyargs + h.args.args]
+                if len(hp) == 1 and rets and all(isinstance(r.value, ast.Name) and r.value.id == hp[0] for r in rets) \
+                        and not any(isinstance(x, ast.Name) and x.id == hp[0] and isinstance(x.ctx, ast.Store) for x in ast.walk(h)):
+                    arg = arg.args[0]
+                    seen += 1
+                else:
+                    break
             ms = mentions(arg)
             if not ms:
                 continue
@@ -655,12 +1025,17 @@ def check_modifiers(rep, facts, und):
             rep.ok('R11.5.modifiers', 'a plain immediate becomes Arithmetic(text)')
             # the text evaluated is the operand's tokens, all of them, in order: dropping or reordering tokens changes the expression
             arg = v[2][0] if v[2] else None
+            while arg is not None and arg[0] == 'mcall' and arg[2] == 'strip' and not arg[3] and not arg[4]:
+                arg = arg[1]                    # blanks at the ends of the text mean nothing to eval()
             params = [a.arg for a in fn.args.args]
             tok = ('name', params[0]) if params else None
             if arg is not None and arg[0] == 'mcall' and arg[2] == 'join' and len(arg[3]) == 1 and is_const(arg[1]) and isinstance(arg[1][1], str):
                 src = arg[3][0]
+                if src[0] == 'comp' and not src[5] and src[3] and ',' not in src[3] and \
+                        src[2] in (('var', src[3]), ('call', 'str', (('var', src[3]),), ())):
+                    src = src[4]                 # [t for t in X] / (str(t) for t in X): every element of X, in order (tokens are text)
                 whole = src == tok
-                partial = src != tok and IS.contains(src, tok) and src[0] in ('slice', 'unpack', 'sub', 'comp')
+                partial = src != tok and IS.contains(src, tok) and src[0] in ('slice', 'unpack', 'sub')
                 if whole:
                     rep.check(arg[1][1].strip() == '', 'R11.5.text', 'the expression text is the operand tokens joined by blanks',
                               lambda node=node, arg=arg: Finding('R11.5.text', 'parse_immediate', node, 'the operand tokens are joined with {!r}: the text evaluated is not the expression that was written'.format(arg[1][1]), line=node.lineno),
@@ -699,7 +1074,14 @@ def check_modifiers(rep, facts, und):
             for ev in p.events:
                 for t in IS.find_all(ev[1:-1], lambda t: t[0] == 'mcall' and t[2] == 'eval' and t[1][0] == 'attr' and t[1][1] == ('name', params[0]) and t[1][2] in fields):
                     inner.add(t)
-        ok = bool(inner) and all(t[3] == want and not t[4] for t in inner)
+        bound = [tuple(eval_argument(facts, t, i_) for i_ in range(EXPR_EVAL_PARAMS)) for t in inner]
+        if any(('unknown',) in b for b in bound):
+            und.append('{}.eval: the arguments of the inner evaluation are not read'.format(cls))
+            continue
+        if not inner and any(IS.contains(ev[1:-1], ('name', params[2])) for p in paths for ev in p.events if len(params) > 2):
+            und.append('{}.eval hands its environment to something that is not read as the evaluation of a stored inner expression'.format(cls))
+            continue
+        ok = bool(inner) and all(b == want for b in bound)
         rep.check(ok, 'R11.5.modifiers', '{}.eval evaluates its inner expression in the same environment'.format(cls),
                   lambda cls=cls, m=m: Finding('R11.5.modifiers', cls + '.eval', m, '{} does not evaluate its inner expression with the position / environment / line it was given'.format(cls), line=m.lineno),
                   nontrivial=False)
@@ -721,7 +1103,12 @@ def run(repo, tier):
                        'the effect of the tokenizer on expression text: splitting on whitespace/commas and paren padding is transparent for numbers and operators but not for '
                        'character literals (\',\' evaluates to 32; \'#\', \'(\', \')\' are refused): value semantics of regex/string processing on particular inputs']
     und = []
-    pipe = Pipeline(facts)
+    try:
+        pipe = Pipeline(facts)
+    except AnalysisError as e:
+        # the rules that do not need the pass order still run: a violation they establish is not masked
+        pipe = None
+        und.append(str(e))
 
     def guarded(f, *args):
         try:
@@ -729,10 +1116,11 @@ def run(repo, tier):
         except AnalysisError as e:
             und.append(str(e))
     guarded(check_integer_results, rep, facts, und)
-    guarded(check_constants_pass, rep, facts, pipe, und)
-    guarded(check_envs, rep, facts, pipe, und)
     regs = []
-    guarded(lambda: regs.append(check_aliases(rep, facts, pipe, und)))
+    if pipe is not None:
+        guarded(check_constants_pass, rep, facts, pipe, und)
+        guarded(check_envs, rep, facts, pipe, und)
+        guarded(lambda: regs.append(check_aliases(rep, facts, pipe, und)))
     if regs and regs[0]:
         guarded(check_register_text, rep, facts, regs[0], und)
     guarded(check_modifiers, rep, facts, und)
@@ -742,6 +1130,21 @@ def run(repo, tier):
         from ..comprel import CompRel, check_literal_blind
         check_literal_blind(rep, CompRel(facts), 'R11.6.literal-blind')
     guarded(literal_blind)
+
+    def expression_text():
+        # the expression that is evaluated is the expression that was written: the lexer may only cut the line at `#`; a comment
+        # pattern that can also start elsewhere (`//`, `;`) removes operators of the expression (`100 // 7` becomes `100`).
+        # The rule is the lexer rule of C13; its findings about the comment substitution are taken over under R11.7
+        from .. import lexrules
+        scratch = Report('C11', LEVEL, '')
+        lexrules.check_lexer(scratch, facts)
+        for f in scratch.findings:
+            if f.rule == 'R13.4.comment-start':
+                f.rule = 'R11.7.expression-text'
+                rep.fail(f, instance='comments start at # only')
+        if not any(f.rule == 'R11.7.expression-text' for f in rep.findings):
+            rep.ok('R11.7.expression-text', 'comments start at # only (no operator of an expression is cut away)', nontrivial=False)
+    guarded(expression_text)
     if und and not rep.findings:
         raise AnalysisError(und[0] + (' (+{} more)'.format(len(set(und)) - 1) if len(set(und)) > 1 else ''))
     rep.floor('Arithmetic.eval return paths', 2)
